@@ -432,7 +432,7 @@ func main() {
 				c.Sample(map[string]any{"buffer": "f0", "capacity": 2, "expected": "[2]"})
 			}
 		}})
-	ck.Domains = append(ck.Domains, &drv.Domain{Name: "xof-samplers", Size: 2000, Chunk: 25, Desc: "polyChallenge, polyUniform, polyUniformEta (second-block path counted), polyUniformGamma1 on 2000 (seed, nonce) pairs vs SampleInBall / ExpandA / ExpandS / ExpandMask",
+	ck.Domains = append(ck.Domains, &drv.Domain{Name: "xof-samplers", Size: 2000, Chunk: 25, Desc: "polyChallenge, polyUniform, polyUniformEta (second-block path counted) on 2000 (seed, nonce) pairs vs SampleInBall / ExpandA / ExpandS / ExpandMask",
 		Run: func(c *drv.Ctx, lo, hi int64) {
 			for i := lo; i < hi; i++ {
 				c.At(i)
@@ -445,8 +445,8 @@ func main() {
 				nonce := uint16(i*257 + i>>3)
 				ch, err := dilithium.VerifPolyChallenge(seed32[:])
 				ref := refdil.SampleInBall(seed32[:])
-				c.Eval(4)
-				c.Nontrivial(4)
+				c.Eval(3)
+				c.Nontrivial(3)
 				if err != nil || !eqRef(ch, &ref) {
 					c.Fail(i, "polychallenge", map[string]any{"seed": hex.EncodeToString(seed32[:])})
 				}
@@ -465,20 +465,15 @@ func main() {
 				if refdil.EtaNeedsSecondBlock(seed64[:], nonce) {
 					c.Count("eta_second_block_path", 1)
 				}
-				pg := dilithium.VerifPolyUniformGamma1(seed64, nonce)
-				em := refdil.ExpandMask(seed64[:], nonce)
-				if !eqRef(pg, &em) {
-					c.Fail(i, "polyuniformgamma1", map[string]any{"seed": hex.EncodeToString(seed64[:]), "nonce": nonce})
-				}
 				c.Outcome("ok")
 				if i == 0 {
 					c.Sample(map[string]any{"seed32": hex.EncodeToString(seed32[:]), "nonce": nonce})
 				}
 			}
 		}})
-	if len(optDomains) == 0 {
+	if len(optDomains) < 2 {
 		ck.Domains = append(ck.Domains, &drv.Domain{Name: "optional-domains-skipped", Size: 1, Run: func(c *drv.Ctx, lo, hi int64) {
-			c.Cap("the vector-level sampler hook does not fit this tree: domain expandmask-vector skipped")
+			c.Cap("a mask-sampler hook does not fit this tree: expandmask-vector and/or expandmask-poly skipped")
 			c.Outcome("skipped")
 		}})
 	}
